@@ -292,6 +292,16 @@ def install(w):
         f = ex.w.ufun("expr_source", z3.StringSort(), z3.BoolSort())
         return Z(f(ex.to_str(args[0])))
 
+    @b("literal_value")
+    def _literal_value(ex, args, kw, e, env):
+        f = ex.w.ufun("literal_eval", ex.S.Py, ex.S.Py)
+        return Z(f(ex.to_py(args[0])))
+
+    @b("is_literal")
+    def _is_literal(ex, args, kw, e, env):
+        f = ex.w.ufun("is_literal", ex.S.Py, z3.BoolSort())
+        return Z(f(ex.to_py(args[0])))
+
     @b("uf")
     def _uf(ex, args, kw, e, env):
         """uf("name", x, ...) — uninterpreted Py-valued function (trusted library symbol)."""
@@ -348,8 +358,13 @@ def install(w):
     def copy_copy(ex, args, kw, e, env):
         v = args[0]
         if isinstance(v, Z):
-            return Z(v.t, fresh="shallow", origin=f"copy.copy({v.origin or '?'})",
-                     known_cls=v.known_cls)
+            r = Z(v.t, fresh="node", origin=f"copy.copy({v.origin or '?'})",
+                  known_cls=v.known_cls)
+            r_cls = ex.known_class(v)
+            if r_cls is not None and r_cls in ex.S.classes and \
+                    not any(q == "*" for _, _, q in ex.S.fields[r_cls]):
+                r.fresh = "shallow"      # no list fields to share
+            return r
         if isinstance(v, Obj):
             return Obj(v.cls, v.attrs, fresh="shallow")
         raise Unsupported("copy.copy of executor value")
@@ -365,7 +380,10 @@ def install(w):
 
     def ast_literal_eval(ex, args, kw, e, env):
         t = ex.to_py(args[0])
-        lit = ex.w.ufun("is_literal", ex.S.Py, z3.BoolSort())
+        if "lit" in ex.w.specs:
+            lit = ex.w.specs["lit"].f       # structural spec predicate (spec/md.py)
+        else:
+            lit = ex.w.ufun("is_literal", ex.S.Py, z3.BoolSort())
         val = ex.w.ufun("literal_eval", ex.S.Py, ex.S.Py)
         line = getattr(e, "lineno", None)
         if "ValueError" in ex.contract.get("raises", {}):
@@ -406,6 +424,29 @@ def install(w):
         f = ex.w.ufun("ast_unparse", ex.S.Py, z3.StringSort())
         return Z(f(ex.to_py(args[0])))
     L["ast.unparse"] = ast_unparse
+
+    def ast_iter_fields(ex, args, kw, e, env):
+        """ast.iter_fields(node): (name, value) for every field in _fields order.  The node class is
+        decided by a case split over the grammar (one path per class)."""
+        v = args[0]
+        S = ex.S
+        if not (isinstance(v, Z) and v.t.sort() == S.Py):
+            raise Unsupported("iter_fields of a non-node value")
+        cls = ex.known_class(v)
+        if cls is None:
+            k = ex.ctx.choose(len(S.node_classes), None)
+            cls = S.node_classes[k]
+            ex.assume(S.rec(cls)(v.t))
+        if cls not in S.classes:
+            raise RaiseSig("AttributeError", getattr(e, "lineno", None), implicit=True)
+        items = []
+        for fname, fty, q in S.fields[cls]:
+            fv = Z(S.acc(cls, fname)(v.t), fresh="no", origin=f"{v.origin or '?'}.{fname}")
+            items.append(Tup([Z(z3.StringVal(fname)), fv]))
+        ex.ctx.notes.append("ast.iter_fields: dropped fields (ctx, kind, type_comment) are not "
+                            "iterated in the model")
+        return CList(items)
+    L["ast.iter_fields"] = ast_iter_fields
 
     def logging_getLogger(ex, args, kw, e, env):
         return Obj("logger", {})
